@@ -330,3 +330,10 @@ def declared_everywhere(F, res):
         res.ob("Q6", "declared/%s" % c.rsplit("intern_", 1)[-1], "every %s interned here is pushed into ModuleScope.declarations on every path of the iteration"
                % c.rsplit("intern_", 1)[-1], ok, where=fn.loc(t["ln"]), how=why)
     res.floor("definition kinds interned in module_scope_with_map_query", n, 4)
+    # ... and the inference groups are formed over `declarations` (every declaration), not over `values` (one definition
+    # per name: the earlier of two functions with one name, or a function shadowed by a constant, would be in no group)
+    dq = [F.fns[p_] for p_ in F.with_helpers("ide::def::scope::dependency_order_query", depth=1) if p_.startswith("ide::def::scope::")]
+    cs = {FL.short(callee(t) or callee_def(t)) for g in dq for b, t in g.calls()}
+    res.ob("Q6", "groups-over-declarations", "dependency_order_query lists the file's functions from ModuleScope::declarations() (every "
+           "declaration), not from the name-indexed value table", "ModuleScope::declarations" in cs and "ModuleScope::values" not in cs,
+           where=dq[0].loc(), how="enumerates through %s" % sorted(c for c in cs if c.startswith("ModuleScope::")))
